@@ -133,7 +133,7 @@ pub fn mutate(rng: &mut Rng, src: &[u8]) -> (Vec<u8>, String) {
                     let p = l.sig.store_at + e.offset as usize;
                     if p + 4 <= b.len() && e.typ == 4 {
                         let cur = u32::from_be_bytes([b[p], b[p + 1], b[p + 2], b[p + 3]]);
-                        let newv = *rng.pick(&[cur / 2, cur.saturating_sub(1), cur + 1, 0, l.hdr.len() as u32, u32::MAX]);
+                        let newv = *rng.pick(&[cur / 2, cur.saturating_sub(1), cur.wrapping_add(1), 0, l.hdr.len() as u32, u32::MAX]);
                         b[p..p + 4].copy_from_slice(&newv.to_be_bytes());
                         return (b, format!("sig SIZE {cur} -> {newv}"));
                     }
